@@ -32,6 +32,13 @@ fn safe_join(root: &Path, rel: &str) -> Option<PathBuf> {
             return None;
         }
     }
+    // `.copia/` under the root is the hub's own directory (the commit lock lives there):
+    // a client that could replace or unlink `.copia/commit.lock` would split the lock.
+    if p.components().find(|c| !matches!(c, Component::CurDir))
+        == Some(Component::Normal(std::ffi::OsStr::new(".copia")))
+    {
+        return None;
+    }
     Some(root.join(p))
 }
 
